@@ -828,6 +828,14 @@ class Substitute(Sharded):
                 yield ['t', ''.join(t)]
         for c in struct_cases():
             yield c
+        # texts / old texts / new texts made of characters that are special to regular expressions and to
+        # replacement templates (an implementation going through re.sub must escape both)
+        for n in range(1, (3 if tier == 'quick' else 4) + 1):
+            for t in itertools.product('a.*\\', repeat=n):
+                yield ['m', ''.join(t)]
+
+    MOLDS = ('.', '*', 'a', '\\', '.*', 'a.')
+    MNEWS = ('', 'x', '\\n', '\\1', '\\', '&', '\\g<0>', '$1')
 
     def check(self, env, case):
         if case[0] == 'one':
@@ -836,6 +844,9 @@ class Substitute(Sharded):
         if case[0] == 't':
             text = case[1]
             olds, news, ks = self.OLDS, self.NEWS, self.KS
+        elif case[0] == 'm':
+            text = case[1]
+            olds, news, ks = self.MOLDS, self.MNEWS, (None, 1, 2)
         else:
             text = STRUCT[case[1]]
             olds = []
